@@ -113,6 +113,16 @@ theorem C10_downlink_operation_split_insensitive :
     SplitInsensitive (Dec.ofParser downlinkOp) encWlb okDlBody :=
   C10_generic_split_insensitive (Lawful.ofParser downlinkOp_lawful)
 
+/-- Routed request messages: `RawRequestMessageDecoder` against `RawRequestMessageEncoder`, for 16-byte origins,
+valid UTF-8 node / lane names and frames below the size the allocator refuses to reserve up front. -/
+theorem C10_raw_request_split_insensitive : SplitInsensitive (Dec.ofParser rawRequest) encReqMsg okReqMsg :=
+  C10_generic_split_insensitive (Lawful.ofParser rawRequest_lawful)
+
+/-- Routed response messages: `RawResponseMessageDecoder` against `RawResponseMessageEncoder`; `Unlinked(Some(b""))`
+has the wire form of `Unlinked(None)` and is excluded by `okRespMsg`. -/
+theorem C10_raw_response_split_insensitive : SplitInsensitive (Dec.ofParser rawResponse) encRespMsg okRespMsg :=
+  C10_generic_split_insensitive (Lawful.ofParser rawResponse_lawful)
+
 /-! ### corrupt tags and lengths -/
 
 /-- An unknown lane-request tag is an error (and exactly the tag byte is dropped). -/
@@ -190,21 +200,6 @@ theorem C10_command_register_split_fails :
   decide
 
 /-! ### statements not proved (yet) -/
-
-/-- Routed request messages (`RawRequestMessageDecoder`) on well-formed frames. -/
-def C10_raw_request_split_insensitive_open : Prop :=
-  SplitInsensitive (Dec.ofParser rawRequest) encReqMsg fun m =>
-    m.origin.length = 16 ∧ m.node.length < 4294967296 ∧ m.lane.length < 4294967296 ∧ utf8Valid m.node = true ∧
-      utf8Valid m.lane = true ∧ (∀ b, m.env = .command b → 32 + m.node.length + m.lane.length + b.length < ALLOC_LIMIT)
-
-/-- Routed response messages (`RawResponseMessageDecoder`); `Unlinked(Some(b""))` has the wire form of
-`Unlinked(None)` and is excluded. -/
-def C10_raw_response_split_insensitive_open : Prop :=
-  SplitInsensitive (Dec.ofParser rawResponse) encRespMsg fun m =>
-    m.origin.length = 16 ∧ m.node.length < 4294967296 ∧ m.lane.length < 4294967296 ∧ utf8Valid m.node = true ∧
-      utf8Valid m.lane = true ∧ m.env ≠ .unlinked (some []) ∧
-      (∀ b, (m.env = .event b ∨ m.env = .unlinked (some b)) →
-        32 + m.node.length + m.lane.length + b.length < ALLOC_LIMIT)
 
 /-- Ad hoc command messages other than `Register` (for `Register` see `C10_command_register_split_fails`). -/
 def C10_command_nonregister_split_insensitive_open : Prop :=
